@@ -1,5 +1,6 @@
 import EmsModel.Core.Named
 import EmsModel.Lemmas.NDArray
+import EmsModel.Lemmas.Ravel
 /-!
 # C03 — flattening and winding variables are exact inverses
 
@@ -247,5 +248,110 @@ example : exConv.ravel exA (some "index") = some { dims := [("t", 2), ("index", 
 example : (exConv.ravel exA (some "index")).bind (fun r => exConv.wind r none none none) = exA.moveToEnd ["y", "x"] := by decide
 example : exConv.ravel exA (some "t") = none := by decide
 example : exConv.ravel ({ dims := [("t", 2)], data := [1, 2] } : NArr Int) none = none := by decide
+
+end Ems.C03
+
+namespace Ems.C03
+open Ems Ems.NArr
+variable {α : Type}
+
+/-- **Meaning of a flattened variable.**  Element `n` of the linear dimension of
+`ravel v` (at any assignment `e` of the other dimensions) is the value `v` holds at the
+grid multi-index `unravel n` — flattened order is row-major order over the grid
+dimensions in the convention's order, wherever those dimensions sat in `v`. -/
+theorem ravel_get [Inhabited α] (a : NArr α) (gd : List Dim) (lin : String) (hwf : a.WF)
+    (hgn : (gd.map (·.1)).Nodup) (hsub : ∀ d ∈ gd, d ∈ a.dims)
+    (hfresh : lin ∉ (a.dims.filter (fun d => !(gd.map (·.1)).contains d.1)).map (·.1))
+    (e : Env) (v : String → Nat) (n : Nat) (ig : List Nat)
+    (hv : ∀ d ∈ a.dims.filter (fun d => !(gd.map (·.1)).contains d.1),
+      e.get d.1 = some (v d.1) ∧ v d.1 < d.2)
+    (hn : e.get lin = some n) (hig : unravel (gd.map (·.2)) n = some ig) :
+    ∃ r, a.ravelDims (gd.map (·.1)) (some lin) = some r ∧
+      r.get? e = a.get? ((gd.map (·.1)).zip ig ++ e) := by
+  obtain ⟨m, hm, hmwf, hmget⟩ := moveToEnd_get a gd hwf hgn hsub
+  obtain ⟨m', hm', hdims, _⟩ := moveToEnd_dims a gd hwf hgn hsub
+  rw [hm] at hm'; cases hm'
+  let others := a.dims.filter (fun d => !(gd.map (·.1)).contains d.1)
+  have hlen : m.dims.length - (gd.map (·.1)).length = others.length := by simp [hdims, others]
+  have htake : m.dims.take others.length = others := by simp [hdims, others]
+  have hdrop : m.dims.drop others.length = gd := by simp [hdims, others]
+  have hfresh' : lin ∉ others.map (·.1) := hfresh
+  have hcont : ((others.map (·.1)).contains lin) = false := by
+    cases h : (others.map (·.1)).contains lin with
+    | false => rfl
+    | true => exact absurd (List.contains_iff_mem.mp h) hfresh'
+  refine ⟨{ dims := others ++ [(lin, size (gd.map (·.2)))], data := m.data }, ?_, ?_⟩
+  · simp only [ravelDims, hm, hlen, htake, hdrop, Option.getD_some, hcont]
+    simp
+  · rw [get_flat m others gd lin e v n ig hdims hmwf hv hn hig]
+    -- the moved array reads like the original at the extended environment
+    let e' : Env := (gd.map (·.1)).zip ig ++ e
+    have hir : InRange (gd.map (·.2)) ig := ravel_inRange _ _ _ (ravel_of_unravel _ _ _ hig)
+    have hspec := zip_env_spec gd ig hgn hir
+    apply hmget e' (fun d => (e'.get d).getD 0)
+    intro d hd
+    by_cases hg : d.1 ∈ gd.map (·.1)
+    · -- a grid dimension: it is the listed one (names are distinct)
+      obtain ⟨g, hgmem, hgname⟩ := List.mem_map.mp hg
+      have hga := hsub g hgmem
+      have hsame : g = d := by
+        have h1 := lookup_dims a.dims hwf.2 g hga
+        have h2 := lookup_dims a.dims hwf.2 d hd
+        rw [hgname] at h1
+        rw [h1] at h2
+        exact Prod.ext hgname (by simpa using h2)
+      subst hsame
+      obtain ⟨x, hx, hlt⟩ := hspec g hgmem
+      have : e'.get g.1 = some x := lookup_append_left_some _ _ _ x hx
+      exact ⟨by simp [this], by simp [this, hlt]⟩
+    · have hdo : d ∈ others := by
+        simp only [others, List.mem_filter]
+        refine ⟨hd, ?_⟩
+        cases hc : (gd.map (·.1)).contains d.1 with
+        | false => rfl
+        | true => exact absurd (List.contains_iff_mem.mp hc) hg
+      have : e'.get d.1 = e.get d.1 := lookup_append_left_none _ _ _ (lookup_zip_none _ _ _ hg)
+      have hvd := hv d hdo
+      exact ⟨by simp [this, hvd.1], by simp [this, hvd.1, hvd.2]⟩
+
+/-- **Meaning of a wound array.**  Winding the linear dimension `lin` (at any position
+`pre … lin … post`) into the grid dimensions `gd` puts at grid multi-index `ig` the value
+the input held at linear position `ravel ig`; all other dimensions keep their place. -/
+theorem wind_get (x : NArr α) (pre post gd : List Dim) (lin : String)
+    (hx : x.dims = pre ++ ((lin, size (gd.map (·.2))) :: post)) (hwf : x.WF)
+    (hgn : (gd.map (·.1)).Nodup)
+    (hfresh : ∀ d ∈ gd, d.1 ∉ (pre ++ post).map (·.1)) :
+    ∃ y, x.windDim gd lin = some y ∧ y.dims = pre ++ (gd ++ post) ∧ y.data = x.data ∧
+      ∀ (e : Env) (v : String → Nat) (n : Nat) (ig : List Nat),
+        (∀ d ∈ pre ++ post, e.get d.1 = some (v d.1) ∧ v d.1 < d.2) →
+        e.get lin = some n → unravel (gd.map (·.2)) n = some ig → y.WF →
+        x.get? e = y.get? ((gd.map (·.1)).zip ig ++ e) := by
+  have hnod : (x.dims.map (·.1)).Nodup := hwf.2
+  rw [hx] at hnod
+  simp only [List.map_append, List.map_cons, List.nodup_append, List.nodup_cons] at hnod
+  have hlin_pre : lin ∉ pre.map (·.1) := fun h => hnod.2.2 lin h lin (by simp) rfl
+  have hidx : x.names.idxOf? lin = some pre.length := by
+    have := idxOf_append_fresh (pre.map (·.1)) lin (post.map (·.1)) hlin_pre
+    simpa [names, hx] using this
+  have hrest : ((x.dims.take pre.length ++ (x.dims.drop pre.length).drop 1).map (·.1)) = (pre ++ post).map (·.1) := by
+    simp [hx]
+  have hsz : x.shape.getD pre.length 0 = size (gd.map (·.2)) := by
+    simp [shape, hx, List.getD_eq_getElem?_getD]
+  have hany : gd.any (fun d => ((pre ++ post).map (·.1)).contains d.1) = false := by
+    rw [List.any_eq_false]
+    intro d hd hc
+    exact hfresh d hd (List.contains_iff_mem.mp hc)
+  have hsplice : splice x.dims pre.length gd = pre ++ (gd ++ post) := by
+    simp [splice, hx]
+  refine ⟨{ dims := pre ++ (gd ++ post), data := x.data }, ?_, rfl, rfl, ?_⟩
+  · simp only [windDim, hidx, hrest, hsz, ne_eq, not_true_eq_false, if_false, hany, Bool.false_eq_true,
+      hsplice]
+  · intro e v n ig hv hn hig hywf
+    have := get_flat_mid ({ dims := pre ++ (gd ++ post), data := x.data } : NArr α) pre gd post lin e v n ig
+      rfl hywf hv hn hig
+    rw [← this]
+    cases x
+    simp only at hx
+    simp [hx]
 
 end Ems.C03
